@@ -1548,62 +1548,18 @@ impl<'a> Model<'a> {
                 // mark cell as evaluated
                 self.cells.insert(key, CellState::Evaluated);
 
-                // return the result of the evaluation.
-                match result {
-                    CalcResult::Array(a) => {
-                        // The cell ended up holding an array. Coerce it to a scalar so
-                        // that dependents observe the same value `set_cells_with_result`
-                        // wrote into the cell:
-                        //   * Array formula anchor (CSE/Dynamic): return a[0][0] (the
-                        //     anchor's "first cell" value, matching the existing model).
-                        //   * Plain scalar formula: 1x1 -> unwrap to the single value;
-                        //     larger -> `#VALUE!`. This must mirror the coercion in
-                        //     `set_cells_with_result` so that dependents evaluated via
-                        //     `ReferenceKind -> evaluate_cell` in the same recalculation
-                        //     pass do not observe a different value than what is stored.
-                        let is_array_formula = matches!(original_cell, Cell::ArrayFormula { .. });
-                        let array_height = a.len();
-                        let array_width = if array_height > 0 { a[0].len() } else { 0 };
-                        if !is_array_formula && (array_width != 1 || array_height != 1) {
-                            // Currently unreachable from normal user formulas: static
-                            // analysis wraps array-returning subexpressions in scalar
-                            // contexts in implicit intersection (`@`), which collapses
-                            // them to a single value before they reach the cell. If we
-                            // ever get here, static analysis or implicit-intersection
-                            // insertion has regressed. Mirrors the assertion in
-                            // `set_cells_with_result` so that the cell value and the
-                            // value observed by in-pass dependents stay consistent.
-                            debug_assert!(
-                                false,
-                                "Larger-than-1x1 array reached scalar-context cell \
-                                 ({cell_reference:?}, {array_width}x{array_height}); \
-                                 implicit intersection was expected to collapse it.",
-                            );
-                            CalcResult::new_error(
-                                Error::VALUE,
-                                cell_reference,
-                                "Array result in scalar context".to_string(),
-                            )
-                        } else if array_height == 0 || array_width == 0 {
-                            CalcResult::new_error(
-                                Error::CALC,
-                                cell_reference,
-                                "Formula produced a zero-size array".to_string(),
-                            )
-                        } else {
-                            match a[0][0] {
-                                ArrayNode::Number(n) => CalcResult::Number(n),
-                                ArrayNode::Boolean(b) => CalcResult::Boolean(b),
-                                ArrayNode::String(ref s) => CalcResult::String(s.clone()),
-                                ArrayNode::Error(ref error) => {
-                                    let message = error.to_localized_error_string(self.language);
-                                    CalcResult::new_error(error.clone(), cell_reference, message)
-                                }
-                                ArrayNode::Empty => CalcResult::EmptyCell,
-                            }
-                        }
+                // Return the value that was stored in the cell, i.e. exactly what every later
+                // (memoised) read of this cell returns. `set_cells_with_result` does not always
+                // store `result` verbatim: an empty result is stored as the number 0, a
+                // non-finite number as `#NUM!`, a blocked spill as `#SPILL!` and an array as its
+                // first element. Returning `result` itself let the dependent that triggered this
+                // evaluation observe a different value than dependents evaluated afterwards.
+                match self.fetch_cell(cell_reference) {
+                    Some(stored) => {
+                        let stored = stored.clone();
+                        self.get_cell_value(&stored, cell_reference)
                     }
-                    _ => result,
+                    None => CalcResult::EmptyCell,
                 }
             }
             None => self.get_cell_value(&original_cell, cell_reference),
